@@ -494,7 +494,8 @@ def isstdlibtype(obj: type) -> compat.TypeIs[type[STDLibtypeT]]:
     if istypealiastype(obj) and not isinstance(obj.__value__, str):
         return isstdlibtype(obj.__value__)
     if isoptionaltype(obj):
-        nargs = tp.get_args(obj)[:-1]
+        # `None` may be declared at any position.
+        nargs = [a for a in tp.get_args(obj) if a not in (None, type(None))]
         return all(isstdlibtype(a) for a in nargs)
     if isuniontype(obj):
         args = tp.get_args(obj)
